@@ -201,6 +201,9 @@ class AlgDomain(EventsMixin, Domain):
     return UNKNOWN
 
   def unop(self, op, v, node, st):
+    if isinstance(op, ast.Not) and isinstance(v.d, tuple) and v.d and \
+            v.d[0] in ('isdiag', 'issym'):
+      return ('not',) + v.d
     if isinstance(op, ast.USub):
       return self._mul(v.d, Lin({}, -1))
     if isinstance(op, ast.UAdd):
@@ -536,8 +539,92 @@ class AlgDomain(EventsMixin, Domain):
 
   def on_branch(self, test, val, taken, node, st):
     d = val.d
-    if isinstance(d, tuple) and d and d[0] == 'isdiag':
-      self.event(st, ('assume', 'isdiag' if taken else 'notdiag', d[1]))
+    if isinstance(d, tuple) and d and d[0] == 'not':
+      d = d[1:]
+      taken = not taken
+    if isinstance(d, tuple) and d and d[0] in ('isdiag', 'issym'):
+      self.event(st, ('assume', d[0] if taken else 'not-' + d[0], d[1]))
+
+  # ---- further library table (initialisers)
+  def x_numpy_eye(self, args, kwargs, node, st):
+    if len(args) == 1 or (len(args) == 2 and (
+            args[0].d == args[1].d and args[0].d is not UNKNOWN or
+            ast.unparse(node.args[0]) == ast.unparse(node.args[1]))):
+      return Poly.eye()
+    if len(args) == 2:
+      return Poly({(A('eye(%s,%s)' % (ast.unparse(node.args[0]),
+                                      ast.unparse(node.args[1])), 'mat'),):
+                   Fraction(1)}, 'mat')
+    return UNKNOWN
+
+  def x_numpy_allclose(self, args, kwargs, node, st):
+    if len(args) >= 2:
+      a, b = args[0].d, args[1].d
+      if isinstance(a, Poly) and isinstance(b, Poly) and a.kind == 'mat' \
+              and (b == a.transpose()):
+        return ('issym', self._name_of(a))
+    return UNKNOWN
+
+  def x_numpy_vstack(self, args, kwargs, node, st):
+    a = args[0].d if args else UNKNOWN
+    if isinstance(a, Tup):
+      return Poly.sym('points(%r)' % (a,), 'rows')
+    return UNKNOWN
+
+  def x_numpy_unique(self, args, kwargs, node, st):
+    a = args[0].d if args else UNKNOWN
+    ax = self._axis(kwargs, args, 99)
+    if isinstance(a, Poly) and a.kind == 'rows' and ax == 0 and \
+            not any(k.startswith('return_') for k in kwargs):
+      n = self._name_of(a)
+      if n.startswith('points('):
+        return Poly.sym('distinct' + n[6:], 'rows')
+      return Poly.sym('distinct(%s)' % n, 'rows')
+    return UNKNOWN
+
+  def x_numpy_cov(self, args, kwargs, node, st):
+    a = args[0].d if args else UNKNOWN
+    rv = kwargs.get('rowvar')
+    if rv is None and len(args) > 2:
+      rv = args[2]
+    rowvar = True if rv is None else (rv.const() if rv.c is not NOCONST
+                                      else 'unknown')
+    extra = sorted(k for k in kwargs if k != 'rowvar')
+    if isinstance(a, Poly) and a.kind == 'rows':
+      name = self._name_of(a)
+      if rowvar in (False, 0) and not extra and len(args) <= 3:
+        return Poly.sym('cov(%s)' % name, 'mat', symmetric=True)
+      return Poly.sym('cov(%s;rowvar=%s;%s)' % (name, rowvar, extra), 'mat',
+                      symmetric=True)
+    return UNKNOWN
+
+  def x_numpy_divide(self, args, kwargs, node, st):
+    if len(args) >= 2:
+      a, b = args[0].d, args[1].d
+      na = self._num(a)
+      if na is not None and isinstance(b, Vec):
+        inv = b.sx.pow(-1)
+        if inv is not None:
+          return Vec(SExpr(inv.coeff * na, inv.factors), b.orient)
+    return UNKNOWN
+
+  def _inv(self, args, kwargs, node, st):
+    a = args[0].d if args else UNKNOWN
+    if isinstance(a, Poly) and a.kind == 'mat':
+      return Poly.sym('inv(%s)' % self._name_of(a), 'mat', symmetric=True)
+    return UNKNOWN
+
+  x_scipy_linalg_pinvh = _inv
+  x_numpy_linalg_inv = _inv
+  x_numpy_linalg_pinv = _inv
+  x_scipy_linalg_inv = _inv
+  x_scipy_linalg_pinv = _inv
+
+  def x_sklearn_datasets_make_spd_matrix(self, args, kwargs, node, st):
+    return Poly.sym('spd_random', 'mat', symmetric=True)
+
+  def x_sklearn_utils_check_array(self, args, kwargs, node, st):
+    return V(args[0].d, ty='ndarray') if args else UNKNOWN
 
   def on_call(self, kind, target, args, kwargs, node, st):
     EventsMixin.on_call(self, kind, target, args, kwargs, node, st)
